@@ -153,7 +153,10 @@ func (g *gen) genMulti(s *Ref, steer bool) *Op {
 }
 
 func (g *gen) genInvalid(s *Ref) *Op {
-	switch g.rng.Intn(5) {
+	switch g.rng.Intn(6) {
+	case 5:
+		// result-object field with both a name and a group tag (first or second field)
+		return &Op{Kind: "add", Life: g.pick(lives), Ctor: g.pick([]string{"OutNG_K0K1", "OutNG_K1S0"})}
 	case 0:
 		return &Op{Kind: "add", Life: g.pick(lives), Ctor: "nil"}
 	case 1:
